@@ -253,3 +253,34 @@ prop("C19", "exploration",
           "thorough": {"checks": 50000, "shards": 16, "timeout": 2400}},
      ],
      ["'promptly' is read as 100 ms of virtual time (end of the current back-off sleep for a caller in back-off)"])
+
+
+prop("C04", "exploration",
+     "property-based testing (rapid) of the whole client against a simulated cluster with generated fault scripts "
+     "under virtual time (real back-off); plus an enumerated classification-table check",
+     "Generated event sequences (move, split, merge, transient classes, server abort/stop, reset, dial refusal, meta "
+     "move) interleaved with requests; every request with a live context must succeed with its own response within a "
+     "virtual horizon after the last event and be executed by the hosting server; application exceptions come back "
+     "unchanged, unretried; each exception class triggers the reaction the property names.",
+     "Trusted: the simulated cluster (my reading of HBase's reactions), virtual horizon of 10 minutes as 'eventually'.",
+     [
+         {"test": "TestC04_FaultSurvival", "quick": {"checks": 5000, "timeout": 300},
+          "thorough": {"checks": 50000, "shards": 16, "timeout": 2400}},
+         {"test": "TestC04_Classification", "quick": {"checks": 1500, "timeout": 120},
+          "thorough": {"checks": 6000, "shards": 2, "timeout": 600}},
+     ],
+     ["fault sequences are finite (<= 8 events) and the cluster is stable afterwards",
+      "'executed then response lost' happens only through connection-level events, where re-execution is legitimate"])
+
+prop("C09", "exploration",
+     "property-based testing (rapid) with many concurrent callers and concurrently injected faults against the "
+     "simulated cluster under virtual time; thorough tier built with the Go race detector",
+     "Sampling of schedules, not coverage: the harness owns the clock and every network-visible event, the Go "
+     "scheduler chooses the interleavings inside the client. Oracle: no panic / deadlock / data race, all requests "
+     "complete after stabilisation, no region left unavailable.",
+     "Trusted: the race detector, synctest deadlock detection. This is the weakest claim of the set.",
+     [
+         {"test": "TestC09_ConcurrentFailures", "quick": {"checks": 2500, "timeout": 300},
+          "thorough": {"checks": 6000, "shards": 16, "timeout": 3000, "race": True}},
+     ],
+     ["interleavings inside the client are sampled, not enumerated"])
